@@ -622,7 +622,7 @@ fn laws<T>(
             Ok(Err(e)) => lab.fail("any-json", "serialize-error", e.to_string()),
             Ok(Ok(via)) => match (vcore::json::parse(direct.as_bytes()), vcore::json::parse(via.as_bytes())) {
                 (Ok(a), Ok(b)) => {
-                    if !jequiv(&a, &b) || matches!(a, J::Str(_)) {
+                    if !jequiv(&a, &b) {
                         lab.fail("any-json", "not-equivalent", format!("direct {} via any {}", direct, via));
                     }
                 }
@@ -680,7 +680,7 @@ fn check_node(rep: &mut Report, sub: &str, seed: u64, v: &Node) {
         cell: "node".to_string(),
         shown: trunc(&v.canon()),
     };
-    laws(&mut lab, v, |a, b| a == b && a.kind() != "Bool", |n| n.canon(), true);
+    laws(&mut lab, v, |a, b| a == b, |n| n.canon(), true);
 }
 
 fn check_wide<T>(rep: &mut Report, sub: &str, seed: u64, shape: &str, leaf: &'static str, class: &str, v: &T, coerce: bool)
@@ -1115,7 +1115,7 @@ fn doc_case(rep: &mut Report, sub: &str, seed: u64, max_depth: usize) {
             Ok(Ok(out)) => match vcore::json::parse(out.as_bytes()) {
                 Err(e) => fail(rep, "not-standard-json", format!("{} in {}", e, out)),
                 Ok(back) => {
-                    if !jequiv(&doc, &back) || matches!(doc, J::Arr(_)) {
+                    if !jequiv(&doc, &back) {
                         fail(rep, "not-equivalent", format!("re-serialized as {}", out));
                     }
                 }
